@@ -24,7 +24,7 @@ RULE_MODULES = {
     'C05': 'c05_purity', 'C06': 'c06_numeric', 'C07': 'c07_compare', 'C08': 'c08_sequences',
     'C09': 'c09_strings', 'C10': 'c10_datatypes', 'C11': 'c11_datetime', 'C12': 'c12_regex', 'C13': 'c13_unicode',
     'C14': 'c14_fnpath', 'C15': 'c15_mapsarrays', 'C16': 'c16_funcitems', 'C17': 'c17_json', 'C18': 'c18_seqtypes',
-    'C19': 'c19_global',
+    'C19': 'c19_global', 'C20': 'c20_schema',
 }
 
 
